@@ -284,4 +284,9 @@ def run_shard(shard, tier) -> Stats:
 
 def replay(case):
     out, ac, dm = execute(case["frame"], case["driver"], case["mix"])
-    return {"outcome": str(out)[:300], "online": ac.online}
+    res = {"outcome": str(out)[:300], "online": ac.online, "after": getattr(ac, "_c14_tally", None)}
+    if case["driver"] == "refresh-props" and case["mix"] != "alone":
+        o2, seq = execute_sequential(case["frame"], case["mix"])
+        mixed = snapshot_props(ac)
+        res["mixed_vs_sequential_differences"] = {k: (mixed[k], seq[k]) for k in seq if seq[k] != mixed[k]}
+    return res
